@@ -1,5 +1,6 @@
 import PgBifrost.Proofs.BatcherRouting
 import PgBifrost.Props.C04
+import PgBifrost.Proofs.Kinesis
 /-!
 # C05 — WAL order inside batches and per partition key (batcher layer)
 
@@ -124,5 +125,60 @@ example (ops : List Op) :=
 example (ops : List Op) (hk : ∀ m ∈ dataMsgs ops, m.pkey = []) :=
   single_worker_total_order (genericLaws 3 (by omega)) ⟨1, .roundRobin, 1000, 5000, 1000000⟩ rfl ops (fun _ _ => trivial)
     (C04.batcher_never_dead (genericLaws 3 (by omega)) (genericNoFatal 3) _ ops (fun _ _ => trivial)) [] hk
+
+/-! ## order at the sink: the Kinesis worker's retries
+
+The batcher theorems above end at the worker's input channel. The one worker that re-submits PARTS of a
+batch is the Kinesis worker; its model (`Model/KinesisRetry.lean`, tied to the code by the `kinesis`
+component) keeps the batch's order in every call. -/
+section kinesis
+open PgBifrost.KinesisRetry PgBifrost.Spec.Kinesis PgBifrost.Proofs.Kinesis
+
+/-- **Every `PutRecords` call of the Kinesis worker submits records in the batch's order**: each call — the
+first one and every retry, whatever fails, for every budget — is a sub-list (order kept) of the batch. -/
+theorem kinesis_calls_keep_batch_order {α : Type} (recs : List α) (outs : List Outcome) (budget : Nat) :
+    ∀ (n : Nat) (c : List α), (run recs outs budget).2[n]? = some c → c.Sublist recs := by
+  intro n
+  induction n with
+  | zero =>
+    intro c hc
+    have hh := loop_calls_head (budget + 1) recs outs
+    have hrun : run recs outs budget = loop (budget + 1) recs outs := rfl
+    rw [hrun] at hc
+    rcases hh with h | h
+    · rw [h] at hc; cases hc
+    · cases hl : (loop (budget + 1) recs outs).2 with
+      | nil => rw [hl] at hc; cases hc
+      | cons a r =>
+        rw [hl] at h hc
+        simp at h hc
+        rw [← hc, h]
+        exact List.Sublist.refl _
+  | succ n ih =>
+    intro b hb
+    cases ha : (run recs outs budget).2[n]? with
+    | none =>
+      have : (run recs outs budget).2.length ≤ n := List.getElem?_eq_none_iff.mp ha
+      have : (run recs outs budget).2[n + 1]? = none := List.getElem?_eq_none_iff.mpr (by omega)
+      rw [this] at hb; cases hb
+    | some a =>
+      have h := loop_retry (budget + 1) recs outs n a b ha hb
+      have hsub : b.Sublist a := by
+        rw [h]
+        cases outAt outs n with
+        | resp codes fc => exact failedOf_sublist a codes
+        | callError => exact List.Sublist.refl a
+        | cancelled => exact List.Sublist.refl a
+      exact hsub.trans (ih a ha)
+
+/-- the monitor evaluated on the real worker's calls accepts exactly that -/
+theorem callsInOrder_iff {α : Type} [BEq α] [LawfulBEq α] (recs : List α) (calls : List (List α)) :
+    callsInOrder recs calls = true ↔ ∀ c ∈ calls, c.Sublist recs := by
+  simp [callsInOrder, List.all_eq_true, List.isSublist_iff_sublist]
+
+example : callsInOrder [1, 2, 3, 4] [[1, 2, 3, 4], [1, 3, 4], [3, 4]] = true ∧
+    callsInOrder [1, 2, 3, 4] [[1, 2, 3, 4], [1, 4, 3]] = false := by decide
+
+end kinesis
 
 end PgBifrost.Props.C05
